@@ -45,6 +45,17 @@ func registerBytesBufferModel() {
 			RetN: p.Len, Err: s.zeroValue(errorType()), BufObj: p.object()})
 		return []Value{p.Len, s.zeroValue(errorType())}
 	}
+	libTable["(*bytes.Buffer).WriteByte"] = func(s *State, fn *ssa.Function, args []Value, where string) []Value {
+		// one byte appended: a Write of a fresh one-byte array
+		b := args[0].(*PtrV)
+		s.check("safety:nil@"+where, Not(b.Nil))
+		et := types.Typ[types.Uint8]
+		one := Const(64, 1)
+		o := s.newObj(types.NewArray(et, 0), &ArrayV{Arr: &ArrStore{Base: &ArrZero{W: 8}, Idx: Const(64, 0), Val: asTerm(args[1])}, N: one, Elem: et}, "bytes.Buffer.WriteByte", true)
+		s.log = append(s.log, LogEntry{Callee: "io.Writer.Write", Target: bufIface(s, b), Arr: s.arrayOf(o).Arr, Off: Const(64, 0), N: one,
+			RetN: one, Err: s.zeroValue(errorType()), BufObj: o})
+		return []Value{s.zeroValue(errorType())}
+	}
 	libTable["(*bytes.Buffer).Reset"] = func(s *State, fn *ssa.Function, args []Value, where string) []Value {
 		b := args[0].(*PtrV)
 		s.check("safety:nil@"+where, Not(b.Nil))
